@@ -143,6 +143,47 @@ func Settle(need, maxSamples int) (gs []G, ok bool) {
 	return gs, false
 }
 
+// SettleIgnoring is Settle for a caller that is not the only harness goroutine awake: goroutines
+// with a frame containing one of subs (e.g. the main goroutine polling in "mon.WaitDone") are not
+// looked at.
+func SettleIgnoring(need, maxSamples int, subs ...string) (gs []G, ok bool) {
+	streak := 0
+	for i := 0; i < maxSamples; i++ {
+		for k := 0; k < 4; k++ {
+			runtime.Gosched()
+		}
+		if i > 8 {
+			time.Sleep(time.Duration(50+10*i) * time.Microsecond)
+		}
+		gs = Dump()
+		q := true
+		for j, g := range gs {
+			if j == 0 || ignorable(g) || !g.Active() {
+				continue
+			}
+			skip := false
+			for _, s := range subs {
+				if g.Has(s) {
+					skip = true
+				}
+			}
+			if !skip {
+				q = false
+				break
+			}
+		}
+		if q {
+			streak++
+			if streak >= need {
+				return gs, true
+			}
+		} else {
+			streak = 0
+		}
+	}
+	return gs, false
+}
+
 // WaitResult is the three-valued outcome of waiting for a workload.
 type WaitResult int
 
